@@ -345,6 +345,26 @@ class Ref:
             for x in s[2]:
                 self._check_names(x, params)
 
+    def check_static(self):
+        """References inside macro bodies that do not depend on a parameter must be valid even
+        if the macro is never called (they are fixed by the header alone)."""
+        for m in self.prog["macros"]:
+            params = set(m["params"])
+            for s in walk([m["body"]]):
+                if s[0] == "g":
+                    for a in s[2]:
+                        if a[0] == "id" and a[1] not in params:
+                            self.eval_arg(a, None)
+                        elif a[0] == "ix" and a[1] not in params and not (isinstance(a[2], str) and a[2] in params):
+                            self.eval_arg(a, None)
+                elif s[0] in ("loop", "sub") and not (isinstance(s[1], str) and s[1] in params):
+                    self._count(s[1], None, "count")
+
+    def validate(self):
+        """Whole-program validity: header, main body (macros expanded), static parts of macro bodies."""
+        self.check_static()
+        return self.meaning()
+
     def declarations(self):
         """Header data by value: lets, register size, every alias's index set, macro signatures."""
         d = {
@@ -372,6 +392,8 @@ def norm(node):
         kids = []
         for k in node[2]:
             k = norm(k)
+            if k[0] in ("seq", "par") and len(k[1]) == 0:
+                continue
             if k[0] == "seq":
                 kids.extend(k[1])
             else:
@@ -469,3 +491,81 @@ def depth_of(stmts):
 
 def size_of(prog):
     return sum(1 for _ in all_stmts(prog)) + len(prog["lets"]) + len(prog["maps"]) + len(prog["macros"])
+
+
+# ---------------------------------------------------------------------- well-formedness
+
+
+def _wf_int(x, allow_none=False):
+    return (allow_none and x is None) or is_int(x) or (isinstance(x, str) and x != "")
+
+
+def _wf_stmt(s, block_only=False):
+    if not isinstance(s, list) or not s or not isinstance(s[0], str):
+        return False
+    tag = s[0]
+    if tag in ("seq", "par"):
+        return len(s) == 2 and isinstance(s[1], list) and all(_wf_stmt(x) for x in s[1])
+    if block_only:
+        return False
+    if tag == "g":
+        if len(s) != 3 or not isinstance(s[1], str) or not s[1] or not isinstance(s[2], list):
+            return False
+        for a in s[2]:
+            if not isinstance(a, list) or not a:
+                return False
+            if a[0] == "n":
+                if len(a) != 2 or not is_num(a[1]):
+                    return False
+            elif a[0] == "id":
+                if len(a) != 2 or not isinstance(a[1], str) or not a[1]:
+                    return False
+            elif a[0] == "ix":
+                if len(a) != 3 or not isinstance(a[1], str) or not a[1] or not _wf_int(a[2]):
+                    return False
+            else:
+                return False
+        return True
+    if tag == "loop":
+        return len(s) == 3 and _wf_int(s[1]) and _wf_stmt(s[2], block_only=True)
+    if tag == "sub":
+        return len(s) == 3 and _wf_int(s[1], True) and isinstance(s[2], list) and all(_wf_stmt(x) for x in s[2])
+    if tag == "branch":
+        return len(s) == 2 and isinstance(s[1], list)
+    return False
+
+
+def wellformed(prog):
+    """Structural validity of the Prog data structure itself (used by the shrinker)."""
+    try:
+        if set(prog) < {"usepulses", "lets", "reg", "maps", "macros", "body"}:
+            return False
+        if not all(isinstance(u, str) and u for u in prog["usepulses"]):
+            return False
+        for l in prog["lets"]:
+            if len(l) != 2 or not isinstance(l[0], str) or not l[0] or not is_num(l[1]):
+                return False
+        if prog["reg"] is not None:
+            if len(prog["reg"]) != 2 or not isinstance(prog["reg"][0], str) or not prog["reg"][0] or not _wf_int(prog["reg"][1]):
+                return False
+        for m in prog["maps"]:
+            if len(m) != 3 or not all(isinstance(x, str) and x for x in m[:2]):
+                return False
+            sel = m[2]
+            if sel is not None:
+                if sel[0] == "i":
+                    if len(sel) != 2 or not _wf_int(sel[1]):
+                        return False
+                elif sel[0] == "s":
+                    if len(sel) != 4 or not all(_wf_int(x, True) for x in sel[1:]):
+                        return False
+                else:
+                    return False
+        for m in prog["macros"]:
+            if not isinstance(m["name"], str) or not m["name"] or not all(isinstance(x, str) and x for x in m["params"]):
+                return False
+            if not _wf_stmt(m["body"], block_only=True):
+                return False
+        return all(_wf_stmt(s) for s in prog["body"])
+    except (TypeError, KeyError, IndexError, AttributeError):
+        return False
